@@ -2,8 +2,9 @@
    regenerated from the current source (gen/GenMemConst.v).  The struct sizes
    (my_memory_mgr and the virtual-array control blocks) and ALIGN_SIZE depend on the
    build; they are parameters (the theorems quantify over them). *)
-From Coq Require Import ZArith.
-From LJT Require Import model.MemMgr gen.GenMemConst.
+From Coq Require Import ZArith List.
+Import ListNotations.
+From LJT Require Import model.MemMgr model.TjInit gen.GenMemConst.
 Local Open Scope Z_scope.
 
 Definition gen_cfg (align mgr sctl bctl : Z) : cfg :=
@@ -21,3 +22,9 @@ Definition run64 (c : cfg) := run w64 c.
 Definition pixels_rejected_src (w h lim : Z) : bool := pixels_rejected limit_product_bits w h lim.
 Definition scan_rejected_src (scan_no lim : Z) : bool := scan_rejected scan_limit_strict scan_no lim.
 Definition max_memory_to_use_of (maxMemory : Z) : Z := maxMemory * maxmem_scale.
+
+(* tj3Init + tj3Destroy with the handler found in the source (representative object sizes:
+   the allocation COUNT and the leak do not depend on them as long as the PERMANENT
+   objects fit the first pool) *)
+Definition tjinit_src (c : cfg) (ty : itype) (oracle : list bool) : bool * heap :=
+  tj3_init_destroy w64 c tjinit_handler_destroys ty (empty_heap oracle) 1000 [64; 88] [64; 200; 48; 56].
